@@ -99,6 +99,11 @@ CLAIMED["C03"] = dict(
     text="Corpora written by the independent encoders in each source format (utf-8, latin-1, utf-16; plain or .gz; file or directory) are converted by the real command into each destination format with drawn encodings and inverse option pairs; the exit status must be 0 whenever the destination can represent the trees, the destination decoded by the independent decoders must equal the source model projected on what both formats carry (sentence ids, order, words, POS, lemma, morphology, edges, labels, dominance), the repository's own reader must read the destination identically, and converting back must give the projection of the original. A few corpora of 60 sentences guard against size-dependent truncation.",
     note="Trusted: encoders/decoders in vlib/codecs_tree.py, model-level read/write projection in checks/C03.py. Quick tier: ~12% of the conversions as subprocesses, the rest through runpy in-process (same script, same main); thorough: all subprocesses.",
     ref="DESIGN.md section 2, C03")
+CLAIMED["C18"] = dict(
+    tech="Hypothesis-generated histories of real command lines (job lists): every job run alone in a fresh interpreter vs. all jobs run one after the other in one interpreter in the drawn order and a permutation; metamorphic concatenation relation output(A+B) = output(A) ++ output(B) / sum; repetition under different PYTHONHASHSEED values",
+    text="Job lists of 2..6 real `treetools` command lines (conversions with sentence-local transformations and per-job terminal files under different names, grammar extraction in all types and formats, analysis tasks, transition extraction; different source formats and reader options) are executed by a minimal runner that imports nothing but the code under test: once per job in a fresh process, and as a whole history in one process in two orders. Every job's files and stdout must be the same in all runs. For corpora A and B the output for A+B must be the concatenation (conversions, transitions) or the sum (treebank and Markov grammars, lexicons, statistics) of the separate outputs. The same command under PYTHONHASHSEED 0, 1 and 123 must produce the same files (set-like files as line multisets).",
+    note="Trusted: vlib/jobrunner.py (runpy on the unmodified script), decoders for the additive comparisons. Interleavings are sampled (histories of <= 6+2 jobs, one extra permutation), not enumerated; deterministic binarization is excluded from the additivity clause (symbols are numbered).",
+    ref="DESIGN.md section 2, C18")
 PENDING_REASON = "check not built yet in this round (planned, see DESIGN.md section 6); not claimed until it is quiet on the unchanged tree"
 
 
